@@ -1,8 +1,11 @@
 package main
 
 import (
+	"bytes"
 	"encoding/json"
+	"encoding/xml"
 	"fmt"
+	"io"
 	"strings"
 
 	mxj "github.com/clbanning/mxj/v2"
@@ -125,4 +128,300 @@ func replayArgs(line []byte, a *Acc) {
 func init() {
 	register("args", &family{replay: replayArgs, serial: true,
 		rule: "one case = (argument string, method taking it: ValuesForPath/ValueForPath/Exists/Elements/Attributes/ValuesForKey/PathsForKey/UpdateValuesForPath/SetValueForPath/Remove/RenameKey/NewMap/LeafNodes, sub-key and newVal positions under both field separators); non-trivial = the string contains a character that is significant for the parsers"})
+}
+
+// ---------------------------------------------------------------------------
+// family "tok" (C15, byte input): token-level corruptions classified by the specification, and
+// byte-level truncations / mutations derived from them classified by an independent
+// encoding/xml Token() loop.  Every decoder form is applied under recover.
+// ---------------------------------------------------------------------------
+type tokT struct {
+	K  string   `json:"k"`
+	Nm xName    `json:"nm"`
+	At []xAttr  `json:"at"`
+	Tx []string `json:"tx"`
+}
+type tokCase struct {
+	Op  string `json:"op"`
+	Ts  []tokT `json:"ts"`
+	Cls string `json:"cls"`
+}
+type tokLine struct {
+	F  string    `json:"f"`
+	Cs []tokCase `json:"cs"`
+}
+
+func renderToks(ts []tokT) []byte {
+	var b strings.Builder
+	for _, t := range ts {
+		switch t.K {
+		case "S":
+			b.WriteString("<" + t.Nm.String())
+			for _, a := range t.At {
+				b.WriteString(" " + a.Nm.String() + `="` + escAttr(strings.Join(a.V, ""), `"`) + `"`)
+			}
+			b.WriteString(">")
+		case "E":
+			b.WriteString("</" + t.Nm.String() + ">")
+		case "T":
+			b.WriteString(escText(strings.Join(t.Tx, ""), 0))
+		case "C":
+			b.WriteString("<!--" + strings.Join(t.Tx, "") + "-->")
+		}
+	}
+	return []byte(b.String())
+}
+
+// oracleClass: what encoding/xml makes of the first document
+func oracleClass(doc []byte) string {
+	d := xml.NewDecoder(bytes.NewReader(doc))
+	depth := 0
+	started := false
+	for {
+		t, err := d.Token()
+		if err == io.EOF {
+			if started {
+				return "err"
+			}
+			return "eof"
+		}
+		if err != nil {
+			return "err"
+		}
+		switch t.(type) {
+		case xml.StartElement:
+			depth++
+			started = true
+		case xml.EndElement:
+			depth--
+			if depth == 0 {
+				return "ok"
+			}
+		}
+	}
+}
+
+type xmlDecoderForm struct {
+	name string
+	seq  bool
+	call func(b []byte) (map[string]interface{}, error)
+}
+
+var xmlDecoderForms = []xmlDecoderForm{
+	{"NewMapXml", false, func(b []byte) (map[string]interface{}, error) { m, e := mxj.NewMapXml(b); return m, e }},
+	{"NewMapXmlReader", false, func(b []byte) (map[string]interface{}, error) {
+		m, e := mxj.NewMapXmlReader(hideByteReader{bytes.NewReader(b)})
+		return m, e
+	}},
+	{"NewMapXmlReaderRaw", false, func(b []byte) (map[string]interface{}, error) {
+		m, _, e := mxj.NewMapXmlReaderRaw(bytes.NewReader(b))
+		return m, e
+	}},
+	{"NewMapXml(cast)", false, func(b []byte) (map[string]interface{}, error) { m, e := mxj.NewMapXml(b, true); return m, e }},
+	{"NewMapXmlSeq", true, func(b []byte) (map[string]interface{}, error) { m, e := mxj.NewMapXmlSeq(b); return m, e }},
+	{"NewMapXmlSeqReader", true, func(b []byte) (map[string]interface{}, error) {
+		m, e := mxj.NewMapXmlSeqReader(hideByteReader{bytes.NewReader(b)})
+		return m, e
+	}},
+	{"NewMapXmlSeqReaderRaw", true, func(b []byte) (map[string]interface{}, error) {
+		m, _, e := mxj.NewMapXmlSeqReaderRaw(bytes.NewReader(b))
+		return m, e
+	}},
+	{"NewMapFormattedXmlSeq", true, func(b []byte) (map[string]interface{}, error) { m, e := mxj.NewMapFormattedXmlSeq(b); return m, e }},
+}
+
+// checkXmlInput applies every decoder form to one byte input with known class
+func checkXmlInput(doc []byte, class, origin string, a *Acc, rc interface{}) int {
+	n := 0
+	for _, f := range xmlDecoderForms {
+		n++
+		var m map[string]interface{}
+		var err error
+		one := func(sig, detail string) { a.Mis(sig, fmt.Sprintf("%s on %q (%s): %s", f.name, doc, origin, detail), rc) }
+		if p := guard(func() { m, err = f.call(doc) }); p != "" {
+			one("tok:panic:"+f.name, p)
+			continue
+		}
+		got := "ok"
+		if err == io.EOF {
+			got = "eof"
+		} else if err != nil {
+			got = "err"
+		}
+		if f.seq && err == mxj.NoRoot {
+			continue // documented no-root result of the sequence decoder
+		}
+		if f.name == "NewMapFormattedXmlSeq" && class != "ok" {
+			// it rewrites the input first (white space between tags removed): only the no-panic clause applies
+			continue
+		}
+		if f.seq && class == "err" && got == "eof" {
+			// the sequence decoder reads raw tokens: a document cut inside an element ends in io.EOF, which is
+			// a failure too (the property distinguishes success from failure, not the error values)
+			got = "err"
+		}
+		if got != class {
+			one(fmt.Sprintf("tok:class:%s:want=%s:got=%s", f.name, class, got), fmt.Sprintf("returned err=%v, the first document is %s", err, class))
+			continue
+		}
+		if err != nil && len(m) != 0 {
+			one("tok:partial-map:"+f.name, fmt.Sprintf("returned error %v together with Map %s", err, tagged.CanonGo(m)))
+			continue
+		}
+		if err == nil {
+			// every Map a decoder returns can be passed to the matching encoder
+			if p := guard(func() {
+				if f.seq {
+					ms := mxj.MapSeq(m)
+					ms.Xml()
+					ms.XmlIndent("", " ")
+				} else {
+					mv := mxj.Map(m)
+					mv.Xml()
+					mv.XmlIndent("", " ")
+					mv.Json()
+				}
+			}); p != "" {
+				one("tok:encoder-panic:"+f.name, "encoding the returned Map: "+p)
+			}
+		}
+	}
+	// bulk handler and BeautifyXml: terminate, no panic
+	n++
+	if p := guard(func() {
+		cnt := 0
+		mxj.HandleXmlReader(bytes.NewReader(doc), func(mxj.Map) bool { cnt++; return cnt < 5 }, func(error) bool { return false })
+		mxj.HandleXmlReaderRaw(bytes.NewReader(doc), func(mxj.Map, []byte) bool { cnt++; return cnt < 10 }, func(error, []byte) bool { return false })
+		mxj.BeautifyXml(doc, "", " ")
+	}); p != "" {
+		a.Mis("tok:panic:handlers", fmt.Sprintf("HandleXmlReader[Raw]/BeautifyXml on %q: %s", doc, p), rc)
+	}
+	return n
+}
+
+func replayTok(line []byte, a *Acc) {
+	var l tokLine
+	if err := json.Unmarshal(line, &l); err != nil {
+		panic(err)
+	}
+	cases, nontriv := 0, 0
+	for _, c := range l.Cs {
+		doc := renderToks(c.Ts)
+		if oc := oracleClass(doc); oc != c.Cls {
+			a.mu.Lock()
+			a.Fatal = fmt.Sprintf("oracle disagreement on %q (%s): specification %s, encoding/xml %s", doc, c.Op, c.Cls, oc)
+			a.mu.Unlock()
+			return
+		}
+		k := checkXmlInput(doc, c.Cls, "token "+c.Op, a, tokLine{F: "tok", Cs: []tokCase{c}})
+		cases += k
+		if c.Op != "none" {
+			nontriv += k
+			continue
+		}
+		// byte level: every truncation, every single-byte deletion, a few substitutions per position
+		for i := 0; i < len(doc); i++ {
+			muts := [][]byte{doc[:i], append(append([]byte{}, doc[:i]...), doc[i+1:]...)}
+			for _, sub := range []byte{'<', '>', '/', '"', '&', 0, 0xff, 'a', ' '} {
+				if doc[i] != sub {
+					mm := append([]byte{}, doc...)
+					mm[i] = sub
+					muts = append(muts, mm)
+				}
+			}
+			for _, mdoc := range muts {
+				k := checkXmlInput(mdoc, oracleClass(mdoc), fmt.Sprintf("byte mutation at %d of %q", i, doc), a, map[string]interface{}{"bytes": string(mdoc)})
+				cases += k
+				nontriv += k
+			}
+		}
+	}
+	a.Count(cases, nontriv)
+	if len(l.Cs) > 10 {
+		a.Sample(map[string]interface{}{"document": string(renderToks(l.Cs[0].Ts)), "corruption": l.Cs[5].Op, "bytes": string(renderToks(l.Cs[5].Ts)), "class": l.Cs[5].Cls})
+	}
+}
+
+// JSON and gob byte input (oracle: encoding/json, encoding/gob): fixed seeds, every truncation / deletion / substitution
+func jsonGobTotality(a *Acc) {
+	seeds := []string{`{"a":1,"b":{"c":[1,"x",{"d":null}]},"e":"q\"r\\"}`, ` {"k":"{}}"} {"j":2}`, `[1,{"a":2}]`, `{"a":{"b":{"c":{}}}}x`, `}`, `{"a":"é\ud83d"}`}
+	n := 0
+	for _, s := range seeds {
+		doc := []byte(s)
+		var muts [][]byte
+		muts = append(muts, doc)
+		for i := 0; i <= len(doc); i++ {
+			muts = append(muts, doc[:i])
+			if i < len(doc) {
+				muts = append(muts, append(append([]byte{}, doc[:i]...), doc[i+1:]...))
+				for _, sub := range []byte{'{', '}', '"', '\\', '[', 0xff, 0} {
+					mm := append([]byte{}, doc...)
+					mm[i] = sub
+					muts = append(muts, mm)
+				}
+			}
+		}
+		for _, mdoc := range muts {
+			n++
+			var first interface{}
+			oerr := json.NewDecoder(bytes.NewReader(mdoc)).Decode(&first)
+			_, isObj := first.(map[string]interface{})
+			_, isArr := first.([]interface{})
+			accept := len(mdoc) == 0 || (oerr == nil && (isObj || isArr))
+			var m mxj.Map
+			var err error
+			if p := guard(func() { m, err = mxj.NewMapJson(mdoc) }); p != "" {
+				a.Mis("tok:json:panic:NewMapJson", fmt.Sprintf("%q: %s", mdoc, p), map[string]interface{}{"json": string(mdoc)})
+				continue
+			}
+			if (err == nil) != accept {
+				a.Mis("tok:json:class:NewMapJson", fmt.Sprintf("NewMapJson(%q) err=%v, encoding/json on the first value: %v (%T)", mdoc, err, oerr, first), map[string]interface{}{"json": string(mdoc)})
+			}
+			if err != nil && len(m) != 0 {
+				a.Mis("tok:json:partial-map", fmt.Sprintf("NewMapJson(%q) returned %s with error %v", mdoc, tagged.CanonGo(m), err), map[string]interface{}{"json": string(mdoc)})
+			}
+			if p := guard(func() {
+				mxj.NewMapJsonReader(bytes.NewReader(mdoc))
+				mxj.NewMapJsonReaderRaw(bytes.NewReader(mdoc))
+				c := 0
+				mxj.HandleJsonReader(bytes.NewReader(mdoc), func(mxj.Map) bool { c++; return c < 5 }, func(error) bool { return false })
+				mxj.HandleJsonReaderRaw(bytes.NewReader(mdoc), func(mxj.Map, []byte) bool { c++; return c < 10 }, func(error, []byte) bool { return false })
+				if err == nil {
+					m.Json()
+					m.Xml()
+				}
+			}); p != "" {
+				a.Mis("tok:json:panic:readers", fmt.Sprintf("%q: %s", mdoc, p), map[string]interface{}{"json": string(mdoc)})
+			}
+		}
+	}
+	// gob
+	g, _ := mxj.Map{"a": "x", "b": []interface{}{1.5, map[string]interface{}{"c": true}}}.Gob()
+	for i := 0; i <= len(g); i++ {
+		n++
+		for _, mdoc := range [][]byte{g[:i], append(append([]byte{}, g[:i]...), 0xff)} {
+			if p := guard(func() {
+				m, err := mxj.NewMapGob(mdoc)
+				if err != nil && len(m) != 0 {
+					a.Mis("tok:gob:partial-map", fmt.Sprintf("NewMapGob returned %s with error %v", tagged.CanonGo(m), err), nil)
+				}
+			}); p != "" {
+				a.Mis("tok:gob:panic", fmt.Sprintf("NewMapGob on %d bytes: %s", len(mdoc), p), nil)
+			}
+		}
+	}
+	a.Count(n, n)
+}
+
+var jsonGobDone bool
+
+func init() {
+	register("tok", &family{replay: func(line []byte, a *Acc) {
+		if !jsonGobDone {
+			jsonGobDone = true
+			jsonGobTotality(a)
+		}
+		replayTok(line, a)
+	},
+		rule: "one case = (byte input, decoder form): token-level corruptions with the specification's class, byte-level truncations/deletions/substitutions of every position with the class of an independent encoding/xml Token loop (JSON: encoding/json, gob: no panic); non-trivial = corrupted input"})
 }
